@@ -253,6 +253,9 @@ pub fn run(ctx: &Ctx) -> Outcome {
 }
 
 async fn dataset_case(ctx: &Ctx, out: &mut Outcome, rng: &mut Rng, idx: u64) {
+    // every seventh dataset is stored under an empty tenant prefix (chunk paths with a leading slash)
+    let tenant: &'static str = if idx % 7 == 3 { "" } else { "t" };
+    let storage_config = move || cardinalsin::StorageConfig { provider: cardinalsin::CloudProvider::Memory, container: "verif".into(), tenant_id: tenant.into() };
     let now = clock::SIM_EPOCH_NS + rng.range(0, 3 * H);
     clock::freeze_wall(now);
     let typed = rng.chance(1, 2);
